@@ -236,12 +236,14 @@ impl Sut {
                     let mut placeholders = 0;
                     let mut cookie: i64 = -1;
                     let mut clen = 0usize;
+                    let mut cookie_field: Vec<u8> = vec![];
                     for (ty, body) in wire::fields(buf, 48) {
                         match ty {
                             0x0104 => uid = Some(body[..32.min(body.len())].to_vec()),
                             0x0204 => {
                                 cookie = cookie_int(&body);
                                 clen = body.len();
+                                cookie_field = body.clone();
                             }
                             0x0304 => {
                                 placeholders += 1;
@@ -260,6 +262,9 @@ impl Sut {
                         } else {
                             out["cookie"] = match (head, expect_cookie) {
                                 (Some(h), Some(e)) if h == cookie => json!(e),
+                                // cookies shorter than 8 bytes cannot carry an identity: only their length is checked
+                                // (the field body is the cookie followed by padding up to the minimum field size)
+                                (Some(h), Some(e)) if (h % 2048) < 8 && cookie_field.starts_with(&cookie_bytes(h)) => json!(e),
                                 _ => json!(-2),
                             };
                         }
@@ -530,7 +535,11 @@ async fn replay(job: &Value) {
     let mut out = util::NdjsonOut::create(job["output"].as_str().unwrap());
     let seed = job["seed"].as_u64().unwrap_or(0);
     for w in walks {
-        let cfg = Cfg::from(&job["cfg"]);
+        let mut cfgv = job["cfg"].clone();
+        if let Some(st) = w.get("init_stash") {
+            cfgv["init_stash"] = st.clone();
+        }
+        let cfg = Cfg::from(&cfgv);
         let mut sut = Sut::new(cfg, seed ^ w["id"].as_u64().unwrap_or(0), false);
         let steps = w["walk"].as_array().unwrap();
         let mut fail = Value::Null;
